@@ -86,12 +86,15 @@ class FakeEngine(object):
 class FakeComp(workflow.ComponentState):
     """Subclass so that isinstance checks of the controller pass; constructor bypassed."""
 
-    def __init__(self, idx, d, drv):
+    def __init__(self, idx, d, drv, cname=None):
         self.idx = idx
         self.d = d
         self.drv = drv
         self.stage = d['stage']
-        self.ref = 'stage%d.c%d' % (d['stage'], idx)
+        # component names are unique within a stage only: the j-th component of every stage is called c<j>, so
+        # components of different stages share their name and differ in their reference (stage<i>.c<j>)
+        self.cname = cname or ('c%d' % idx)
+        self.ref = 'stage%d.%s' % (d['stage'], self.cname)
         self.controllerState = None
         self.log = logging.getLogger('verif.comp')
         self._finishedCalled = False
@@ -109,13 +112,13 @@ class FakeComp(workflow.ComponentState):
         self._spec = types.SimpleNamespace(
             reference=self.ref, workflowAttributes=cs.workflowAttributes, componentSpecification=cs,
             isRepeat=d['is_repeat'], isMigrated=False, isMigratable=False, stageIndex=d['stage'], isStaged=False,
-            identification=self.ref)
+            identification=self.ref, name=self.cname)
         self.repeatingDisposable = None
 
     # --- overridden protocol (trusted mirror of workflow.ComponentState)
     engine = property(lambda s: s._engine)
     specification = property(lambda s: s._spec)
-    name = property(lambda s: s.ref)
+    name = property(lambda s: s.specification.name)
     stageIndex = property(lambda s: s.stage)
     isStaged = property(lambda s: s._spec.isStaged)
     finishCalled = property(lambda s: s._finishedCalled)
@@ -195,8 +198,12 @@ class Driver(object):
         self.nstages = max(d['stage'] for d in W) + 1
         g = networkx.DiGraph()
         self.comps = []
+        per_stage = {}
         for i, d in enumerate(W):
-            self.comps.append(FakeComp(i, d, self))
+            j = per_stage.get(d['stage'], 0)
+            per_stage[d['stage']] = j + 1
+            self.comps.append(FakeComp(i, d, self, cname='c%d' % j))
+        self.idx_of = dict((c.ref, c.idx) for c in self.comps)
         for i, d in enumerate(W):
             c = self.comps[i]
             g.add_node(c.ref, stageIndex=d['stage'], component=weakref.ref(c))
@@ -438,7 +445,7 @@ class Driver(object):
         for c, comp in enumerate(self.comps):
             comps.append((comp.state, comp.idx in staged, comp.runs, comp.finishCalled,
                           comp.engine.restarts, comp.engine.resub))
-        done = sorted(int(r.split('.c')[1]) for r in self.ctl.comp_done)
+        done = sorted(self.idx_of[r] for r in self.ctl.comp_done)
         return {'comps': comps, 'done': done, 'stop': bool(self.ctl.stop_executing),
                 'pmq': sorted(self.pmq), 'finq': sorted(self.finq),
                 'running': self.stage_running(), 'verdict': self.verdict, 'cur': self.cur}
